@@ -211,25 +211,25 @@ Proof. exact (count_in_range M p). Qed.
 Print Assumptions C01_count_vars.
 
 (* ===================== PerfectMatchingPrinciple ===================== *)
-Theorem C01_matching_T1 a n es : graph_wf n es = true ->
+Theorem C01_matching_T1 a n es : simple_graph_wf n es = true ->
   (cnf_sat a (to_cnf (matching_ir n es)) = true <-> perfect_matching n (matching_sel a es)) /\
   (opb_sat a (to_opb (matching_ir n es)) = true <-> perfect_matching n (matching_sel a es)).
 Proof. exact (matching_T1_final a n es). Qed.
 Print Assumptions C01_matching_T1.
 
-Theorem C01_matching_T2 n es (obj : Z * Z -> bool) : graph_wf n es = true -> perfect_matching n (filter obj es) ->
+Theorem C01_matching_T2 n es (obj : Z * Z -> bool) : simple_graph_wf n es = true -> perfect_matching n (filter obj es) ->
   exists a, cnf_sat a (to_cnf (matching_ir n es)) = true /\ opb_sat a (to_opb (matching_ir n es)) = true /\
             matching_sel a es = filter obj es.
 Proof. exact (matching_T2_final n es obj). Qed.
 Print Assumptions C01_matching_T2.
 
-Theorem C01_matching_unique a b n es : graph_wf n es = true ->
+Theorem C01_matching_unique a b n es : simple_graph_wf n es = true ->
   (forall e, In e (matching_sel a es) <-> In e (matching_sel b es)) ->
   forall v, 1 <= v <= matching_numvar es -> a v = b v.
 Proof. exact (matching_unique a b n es). Qed.
 Print Assumptions C01_matching_unique.
 
-Theorem C01_matching_sat_iff n es : graph_wf n es = true ->
+Theorem C01_matching_sat_iff n es : simple_graph_wf n es = true ->
   ((exists a, cnf_sat a (to_cnf (matching_ir n es)) = true) <-> exists obj, perfect_matching n (filter obj es)) /\
   ((exists a, opb_sat a (to_opb (matching_ir n es)) = true) <-> exists obj, perfect_matching n (filter obj es)).
 Proof. exact (matching_sat_iff_final n es). Qed.
@@ -314,7 +314,7 @@ Print Assumptions C01_fast_rendering.
 
 (* ===================== non-vacuity ===================== *)
 Example C01_nonvacuous :
-  bip_wf [[1; 2]; []; [2]] 2 = true /\ graph_wf 4 [(1, 3); (2, 3); (3, 4)] = true /\
+  bip_wf [[1; 2]; []; [2]] 2 = true /\ simple_graph_wf 4 [(1, 3); (2, 3); (3, 4)] = true /\
   php_valid 3 2 = true /\ bphp_valid 3 3 = true /\ rphp_valid 2 2 2 = true /\ count_valid 4 2 = true /\ cc_valid 3 2 2 = true /\
   to_cnf (php_ir 2 2 false false) = [[1; 2]; [3; 4]; [-1; -3]; [-2; -4]] /\
   cnf_sat (fun v => (v =? 1) || (v =? 4)) (to_cnf (php_ir 2 2 true true)) = true /\
